@@ -148,7 +148,15 @@ class Check(PropertyCheck):
                         # the same rational positions the oracle uses, rounded once to double
                         ox = float(Fraction(2 * a + 1, 2 * n) - Fraction(1, 2))
                         oy = float(Fraction(2 * kk + 1, 2 * n) - Fraction(1, 2))
-                        cnt += np.asarray(reg.contains(PixCoord(xx + ox, yy + oy)), dtype=int)
+                        qx, qy = xx + ox, yy + oy
+                        lay = (a * n + kk + int(case.get('pick', 0))) % 3
+                        if lay == 1:
+                            # the same grid in Fortran memory order
+                            qx, qy = np.asfortranarray(qx), np.asfortranarray(qy)
+                        elif lay == 2:
+                            # ... as broadcast index vectors (a user's `PixCoord(x[None, :], y[:, None])`)
+                            qx, qy = np.broadcast_arrays(qx[:1, :], qy[:, :1])
+                        cnt += np.asarray(reg.contains(PixCoord(qx, qy)), dtype=int)
                 member = cnt.tolist()
             else:
                 member = []
